@@ -144,9 +144,6 @@ crate::harnesses! { REG;
     /// quick required unwindset=BitIteratorBE:66,>::pow:8,SqrtPrecomputation:7 | F_17 (two-adicity 4, elements of maximal 2-power order included), generic SqrtPrecomputation::TonelliShanks over the table-backed field: ALL x
     #[unwind(28)]
     fn c11_prime_f17_plain() { prime_sqrt::<PF17>() }
-    /// thorough required timeout=3000 unwindset=BitIteratorBE:66,>::pow:8,SqrtPrecomputation:7 | hand-written F_17 (Tonelli-Shanks, two-adicity 4) over real Montgomery arithmetic, ALL x
-    #[unwind(28)]
-    fn c11_prime_hf17() { prime_sqrt::<HF17>() }
     /// quick required unwindset=BitIteratorBE:66,>::pow:8,SqrtPrecomputation:7 | Fp2 = F_7[u]/(u^2+1): ALL 49 elements (c1 = 0 branch in both sub-cases included): sqrt Some iff x^((q-1)/2) in {0,1} (oracle power), root^2 = x, legendre
     #[unwind(28)]
     fn c11_fp2_f7() { ext_sqrt::<F7_2, O7_2>(24) }
